@@ -45,6 +45,14 @@ CLAIMS = {
         note="socket file and selector are scripted stubs; chunk sizes 5..255 only by induction; "
              "OSError paths not explored",
         ref="§4 C17"),
+    "C09": dict(
+        text="For 8 comment styles x 12 text-accepting entry points, z3 decides over every code point "
+             "of a text of 1-3 characters that an independent lexer sees the same executable words and "
+             "line count as with the text \"x\" (line breaks, delimiters, G-code-looking payloads and "
+             "non-ASCII are all inside the symbolic alphabet).",
+        note="texts longer than 3 code points outside the claim; utf-8 encode stubbed as injective; "
+             "annotate keys ASCII only; the \"{\" style is not covered",
+        ref="§4 C09"),
     "C07": dict(
         text="Inductive step of I7: after any of 96 call shapes from an arbitrary consistent state "
              "(symbolic feed, power, temperatures, E parameter, tool number) every state property "
